@@ -72,6 +72,9 @@ func (o *rigOpts) defaults() {
 
 func newRig(o rigOpts) (*rig, error) {
 	o.defaults()
+	if o.WriteTimeout < 0 { // a negative value asks for the documented "no write bound" (WithWriteTimeout(0))
+		o.WriteTimeout = 0
+	}
 	r := &rig{Trk: &peer.Tracker{}, Log: &peer.CapLogger{}, o: o}
 	port := 1
 	if o.Active {
